@@ -55,7 +55,7 @@ func c19Enc(vk int) (bool, bool) {
 	return ej == nil, ex == nil
 }
 
-var c19Helpers = []string{"text", "html", "json", "jsonbytes", "jsonp", "xml", "blob", "stream", "nocontent", "redirect", "httperror", "streamerr", "xmlindent"}
+var c19Helpers = []string{"htmlstring", "text", "html", "json", "jsonbytes", "jsonp", "xml", "blob", "stream", "nocontent", "redirect", "httperror", "streamerr", "xmlindent"}
 var c19Renderers = []string{"text", "plain", "textbytes", "html", "htmlbytes", "blob", "json", "jsonindented", "jsonp", "xml", "xmlpretty"}
 var c19Statuses = []int{200, 201, 202, 400, 404, 500, 0, 302, 307, 299, 499, 520, 599, 204, 304, 101, 200, 200}
 var c19Accepts = []string{"", "application/json", "text/xml, application/json", "text/plain, application/json", "application/xml", "text/xml", "text/html, text/plain",
@@ -156,6 +156,8 @@ func c19Exec(c Sx) (out Sx) {
 				ctx.Text(status, str)
 			case "html":
 				ctx.HTML(status, []byte(str))
+			case "htmlstring":
+				ctx.HTMLString(status, str)
 			case "json":
 				ctx.JSON(status, v)
 			case "jsonbytes":
@@ -211,6 +213,9 @@ func c19Exec(c Sx) (out Sx) {
 			}
 		default:
 			body = SB(w.body)
+		}
+		if w.nWH != 1 { // a helper commits the header once
+			return L(A("h"), L(A("header-commits"), I(w.nWH)), S(ct), body, I(nerr), S(w.snap.Get("Location")))
 		}
 		return L(A("h"), I(w.code), S(ct), body, I(nerr), S(w.snap.Get("Location")))
 	case "rdr":
